@@ -425,16 +425,26 @@ def boundary_rule(repo: Repo) -> RuleRun:
     for idx, expect in ((101, True), (107, False)):
         cell = Obj("cell", cls=None)
         cell.set("boundary", {100, 101, 102})
+        cell.set("indexes", [100, 101, 102, 107])
         j = Obj("j", cls=repo.cls("optimize.junction.Junction"))
         j.set("index", idx)
         j.set("cells", {cell})
         res = _run(Evaluator(repo=repo, module=isb.module), isb, [j])
         r.check(res is expect, isb, f"index {idx}: is_boundary={res}", f"Junction.is_boundary = {res} for a junction {'on' if expect else 'off'} the boundary set", isb.node, key=f"is_boundary:{expect}")
-    for label, sets, expect in (("corner of one cell only on the boundary", [{100, 101}, {107}], True), ("two cells, the second one has it on the boundary", [{105}, {100, 101}], True), ("two interior cells", [{105}, {106}], False)):
+    for label, sets, expect in (
+        ("corner of one cell only on the boundary", [{100, 101}, {107}], True),
+        ("two cells, the second one has it on the boundary", [{105}, {100, 101}], True),
+        ("two interior cells", [{105}, {106}], False),
+        # the end of a slit in a quad map / the edge of a baffle: as many cells around the point as a cell has corners, still on the boundary
+        ("four quadrilaterals around the end point of a slit, two of them with the point on an open side", [{105}, {101, 102}, {101, 100}, {106}], True),
+        ("eight hexahedra around a point on the edge of a baffle", [{105}, {106}, {101}, {107}, {108}, {109}, {110}, {111}], True),
+        ("four quadrilaterals around an interior point", [{105}, {106}, {107}, {108}], False),
+    ):
         cells = []
-        for bset in sets:
-            c_ = Obj("cell", cls=None)
+        for ci, bset in enumerate(sets):
+            c_ = Obj(f"cell{ci}", cls=None)
             c_.set("boundary", set(bset))
+            c_.set("indexes", [101] + [200 + 10 * ci + q for q in range(3 if len(sets) <= 4 else 7)])
             cells.append(c_)
         j = Obj("j", cls=repo.cls("optimize.junction.Junction"))
         j.set("index", 101)
@@ -649,10 +659,92 @@ def grid_ownership(repo: Repo, prop: str = PROP, rule: str = "C15.GRID-OWNERSHIP
                                 key=f"{cls.name}.{fn.name}",
                             )
     r.require(n >= 2, f"only {n} assignments of a grid attribute found in {modules}")
+    # ... and the grid's ONE point array is never rebound: cells and junctions were handed that array when they were created;
+    # a new array assigned to grid.points leaves them reading the old one (every sweep then averages the original positions)
+    m_ = 0
+    for fn in sorted(repo.all_functions(), key=lambda f_: f_.qualname):
+        short = fn.module.name.split("classy_blocks.")[-1]
+        if not short.startswith("optimize."):
+            continue
+        for node in ast.walk(fn.node):
+            targets = node.targets if isinstance(node, ast.Assign) else [node.target] if isinstance(node, ast.AnnAssign) and node.value is not None else []
+            for t in targets:
+                if isinstance(t, ast.Attribute) and t.attr == "points":
+                    owner = attr_chain(t.value) or ""
+                    is_grid = owner.endswith(".grid") or owner == "grid" or (fn.cls is not None and any(c.name == "GridBase" for c in repo.mro(fn.cls)) and owner == (fn.params[0] if fn.params else "self"))
+                    if not is_grid:
+                        continue
+                    m_ += 1
+                    r.check(
+                        fn.name == "__init__",
+                        fn,
+                        f"{fn.qualname}: the grid's point array is bound in the constructor",
+                        f"{fn.qualname} rebinds the grid's point array ('{ast.unparse(node)[:70]}'): junctions and cells keep reading the array they were created with, so from now on every sweep works from the old "
+                        "positions - one Jacobi step from the start, however many iterations are asked for",
+                        node,
+                        key=f"points:{fn.qualname}",
+                    )
+    r.require(m_ >= 1, "the binding of the grid's point array in GridBase.__init__ was not found")
     return r
 
 
 grid_ownership.rule_id = "C15.GRID-OWNERSHIP"
 
 
-RULES = [write_guard, edge_neighbours, boundary_rule, backport, no_stale_lazy_cache, irregular_valence, no_rounding, match_tolerance, neighbour_binding, grid_ownership]
+def backport_live(repo: Repo, prop: str = PROP, rule: str = "C15.BACKPORT-LIVE") -> RuleRun:
+    """'The smoothed positions are copied back to the mesh vertices ...' - the vertices the mesh has NOW: Mesh.backport() / clear() +
+    assemble() replace every Vertex object, so a smoother that writes to a list of vertices it took when it was created moves dead
+    objects on its next call. In every backport() of a class that holds a mesh, the object each position is written to is reached
+    through self.mesh at that moment."""
+    r = RuleRun(prop, rule, floor=2, what="backport() of the mesh smoother / optimizer writes to vertices reached through self.mesh at call time (not to a list remembered from the constructor)")
+    n = 0
+    for fn in sorted(repo.all_functions(), key=lambda f_: f_.qualname):
+        short = fn.module.name.split("classy_blocks.")[-1]
+        if fn.cls is None or fn.name != "backport" or not short.startswith("optimize."):
+            continue
+        init = repo.find_method(fn.cls, "__init__")
+        holds_mesh = init is not None and any(isinstance(t, ast.Attribute) and t.attr == "mesh" for x in ast.walk(init.node) if isinstance(x, ast.Assign) for t in x.targets)
+        if not holds_mesh:
+            continue
+        me = fn.params[0]
+        origin = {}
+        for lp in ast.walk(fn.node):
+            if isinstance(lp, ast.For):
+                it = lp.iter
+                srcs = []
+                if isinstance(it, ast.Call) and (attr_chain(it.func) or "") in ("zip", "enumerate"):
+                    srcs = list(it.args)
+                else:
+                    srcs = [it]
+                tg = lp.target.elts if isinstance(lp.target, (ast.Tuple, ast.List)) else [lp.target]
+                if isinstance(it, ast.Call) and (attr_chain(it.func) or "") == "enumerate":
+                    tg = tg[1:]
+                for t_, s_ in zip(tg, srcs):
+                    if isinstance(t_, ast.Name):
+                        origin[t_.id] = attr_chain(s_) or ast.unparse(s_)
+        for c in ast.walk(fn.node):
+            if isinstance(c, ast.Call) and isinstance(c.func, ast.Attribute) and c.func.attr in ("move_to",):
+                recv = c.func.value
+                base = recv
+                while isinstance(base, ast.Subscript):
+                    base = base.value
+                chain = attr_chain(base) or ""
+                root = origin.get(chain.split(".")[0], chain) if "." not in chain else chain
+                n += 1
+                r.check(
+                    root.startswith(f"{me}.mesh."),
+                    fn,
+                    f"{fn.qualname}: '{ast.unparse(recv)[:40]}' reached through self.mesh",
+                    f"{fn.qualname} writes the positions to '{ast.unparse(recv)[:50]}', which comes from '{root}' - a list the object keeps itself - instead of self.mesh's current vertices: after mesh.backport() "
+                    "(or clear() + assemble()) the mesh has new Vertex objects, and a later smooth() / optimize() of the same object moves the dead ones - the mesh stays as it was",
+                    c,
+                    key=f"{fn.cls.name}.backport",
+                )
+    r.require(n >= 2, f"only {n} copy-back writes found in backport() of classes holding a mesh")
+    return r
+
+
+backport_live.rule_id = "C15.BACKPORT-LIVE"
+
+
+RULES = [write_guard, edge_neighbours, boundary_rule, backport, no_stale_lazy_cache, irregular_valence, no_rounding, match_tolerance, neighbour_binding, grid_ownership, backport_live]
